@@ -310,11 +310,11 @@ def toSigned (n bits : Nat) : Int := if n < 2 ^ (bits - 1) then n else (n : Int)
 /-- Go `binary.ReadUvarint` (error classes: eof on empty, unexpectedEof mid-way, overflow) -/
 def readUvarintGo (b : Bytes) : R Nat :=
   let rec go (b : Bytes) (i : Nat) (x : Nat) (s : Nat) : R Nat :=
-    match b with
+    if i == 10 then .err "overflow"            -- MaxVarintLen64: the loop ends after ten bytes without reading another
+    else match b with
     | [] => if i == 0 then .err "eof" else .err "unexpectedEof"
     | c :: rest =>
-      if i == 10 then .err "overflow"          -- MaxVarintLen64
-      else if c.toNat < 128 then
+      if c.toNat < 128 then
         if i == 9 ∧ c.toNat > 1 then .err "overflow" else .ok (x + c.toNat * 2 ^ s, rest)
       else go rest (i + 1) (x + (c.toNat - 128) * 2 ^ s) (s + 7)
   go b 0 0 0
